@@ -195,8 +195,9 @@ class Exec:
             yield s, (vs if isinstance(vs, Raise) else list(vs))
     def ev_Dict(self, node, st):
         for s, ks in self.ev_seq(node.keys, st):
+            if isinstance(ks, Raise): yield s, ks; continue
             for s2, vs in self.ev_seq(node.values, s):
-                yield s2, dict(zip(ks, vs))
+                yield s2, (vs if isinstance(vs, Raise) else dict(zip(ks, vs)))
     def ev_JoinedStr(self, node, st): raise Unsupported("f-string")
     def _comprehension(self, node, st):
         """evaluate a single-generator comprehension over a concrete iterable with concrete conditions; None if not possible"""
